@@ -8,3 +8,4 @@ import IweModel.Props.C17
 #print axioms Iwe.C17.nonref_content_kept
 #print axioms Iwe.C17.squash_root
 #print axioms Iwe.C17.size_bound
+#print axioms Iwe.C17.self_loop_copies
